@@ -25,6 +25,15 @@ def commentNextToElse (src comment : String) : Bool :=
     before.trimAsciiEnd.toString.endsWith "else" || after.trimAsciiStart.toString.startsWith "else"
   | _ => false
 
+/-- the comment sits inside the interpolation `\( … )` of a string template: after the last `\(` before
+    it there is no `"` -/
+def commentInsideStringTemplate (src comment : String) : Bool :=
+  match src.splitOn comment with
+  | before :: _ :: _ =>
+    let parts := before.splitOn "\\("
+    parts.length > 1 && !hasSub (parts.getLastD "") "\""
+  | _ => false
+
 def judge (op : List String) (go : String) : Verdict :=
   match op with
   | ["fmt", "pass", pass, hex] =>
@@ -57,6 +66,7 @@ def judge (op : List String) (go : String) : Verdict :=
              if c.startsWith "/*" && collapse k bs != bs then "block-comment-blank-lines-collapsed"
              else if c.startsWith "//" && (c.endsWith " " || c.endsWith "\t") then "line-comment-trailing-whitespace-stripped"
              else if c.startsWith "/*" && commentNextToElse src c then "comment-next-to-else-dropped"
+             else if commentInsideStringTemplate src c then "comment-inside-string-template-dropped"
              else "comment-not-preserved"
            .violation cls "every-comment-exactly-once-verbatim" ["comment"]
          | _, _ => .violation "comment-not-preserved" "every-comment-exactly-once-verbatim" ["comment"])
